@@ -48,11 +48,15 @@ func cpuNow() time.Duration {
 
 func main() {
 	if len(os.Args) < 5 {
-		fmt.Fprintln(os.Stderr, "usage: p16child <manifest.jsonl> <journal> <from> <cpu-limit-seconds>")
+		fmt.Fprintln(os.Stderr, "usage: p16child <manifest.jsonl> <journal> <from> <cpu-limit-seconds> [<to>]")
 		os.Exit(64)
 	}
 	from, _ := strconv.Atoi(os.Args[3])
 	cpuLimit, _ := strconv.Atoi(os.Args[4])
+	to := int(^uint(0) >> 1)
+	if len(os.Args) > 5 {
+		to, _ = strconv.Atoi(os.Args[5])
+	}
 	mf, err := os.Open(os.Args[1])
 	if err != nil {
 		fmt.Fprintln(os.Stderr, err)
@@ -67,7 +71,7 @@ func main() {
 	experiments.Parse(filepath.Dir(os.Args[1]))
 
 	// CPU-time (not wall-clock) guard per input
-	var cur atomic.Int64     // index of the input being processed
+	var cur atomic.Int64      // index of the input being processed
 	var startCPU atomic.Int64 // process CPU time when it started
 	go func() {
 		for {
@@ -86,6 +90,9 @@ func main() {
 		i++
 		if i < from {
 			continue
+		}
+		if i >= to {
+			break
 		}
 		var in input
 		if err := json.Unmarshal(sc.Bytes(), &in); err != nil {
@@ -175,6 +182,9 @@ func one(i int, in input, devnull *os.File) {
 		ctx, cancel := context.WithTimeout(context.Background(), 20*time.Second)
 		if err := e.Run(ctx, &task.Call{Task: name}); err != nil {
 			_ = err.Error()
+		}
+		if ctx.Err() != nil {
+			note(i, "dry-run-timeout "+strconv.Quote(name))
 		}
 		cancel()
 	}
